@@ -20,8 +20,8 @@ EXPLANATION = ('The real function computed by every matrix operation is decided 
                'Not decided: the condition-number dependent residual of M*inverse(M) (a runtime quantity).')
 LEVEL_NOTE = 'Decides the algebraic identity and a rounding-depth certificate, not conditioning-dependent error. Trusted: rustc MIR/layout, intrinsic table, the reference mathematics in rules/spec.py.'
 
-CONFIGS_QUICK = ['sse2', 'scalar']
-CONFIGS_THOROUGH = ['sse2', 'sse2-fma', 'scalar', 'coresimd', 'neon', 'wasm32']
+CONFIGS_QUICK = ['sse2', 'sse2-fma', 'sse41', 'scalar', 'coresimd', 'neon', 'wasm32']
+CONFIGS_THOROUGH = ['sse2', 'sse2-fma', 'sse41', 'scalar', 'coresimd', 'neon', 'wasm32']
 SQUARE = {'Mat2': 2, 'Mat3': 3, 'Mat3A': 3, 'Mat4': 4, 'DMat2': 2, 'DMat3': 3, 'DMat4': 4}
 DEPTH_LIMIT = {'mul': 8, 'det': 12, 'vec': 8}
 
